@@ -277,6 +277,20 @@ def run(ctx: Ctx):
                f"{f.name} returns tuples of different arity {sorted(ar)} on different paths: callers unpacking "
                f"`slices, sources = ...` fail on the odd path", rel, f.line, sample=sorted(ar))
     col.floor("rank_known_sites[slice_spect_data]", col.counts.get("rank_known_sites[slice_spect_data]", 0), 15)
+    # ---- S7 boundary space vs position space: a length marked by equality needs an index range of T + 1 ----------
+    from rules.boundary import length_equals_position
+    nb = 0
+    for f in (sl, ch):
+        for s_ in length_equals_position(f):
+            nb += 1
+            col.ob("G26", "S7", f"{rel}::{f.qualname}::length-marked-in-boundary-space[{s_['length']}]", s_["ok"],
+                   f"`{u(s_['node'])}` marks the boundary `{s_['length']}` (0..T) in an index range of extent "
+                   f"`{s_['extent']}`: the boundary T is never marked, so a sequence that fills the time axis (and "
+                   f"every sequence when no lengths are given) gets no end for its last segment and the start/end "
+                   f"lists disagree in length", rel, s_["node"].lineno, sample=dict(extent=s_["extent"], slack=s_["slack"]))
+    col.floor("length_equality_marks", nb, 1)
+    # ---- S8 'ref' policy: kept segments and their padded bounds == the documented rule, per option valuation --------
+    _ref_policy(ctx, sl)
     plumbing(ctx, "S1")
     return dict(
         explanation=(
@@ -292,6 +306,140 @@ def run(ctx: Ctx):
         not_decided=["window arithmetic equals the documented policy", "chunked directory is well-formed"],
         assumptions=["documented predicates (class docstring of ChunkTokenSequencesBySlices) as oracle"],
     )
+
+
+def _ref_policy(ctx: Ctx, sl):
+    """S8: slice_spect_data is specialised (tests on the option formals folded) for each of the 12 valuations of
+    (window_type, valid_only, other_lens given?) under policy='ref'; the returned bounds and the keep-mask, as
+    min/max-linear terms over (start, end, lobe, len, other_len, t), must agree with the documented rule."""
+    from sa import minmax as MM
+    from sa.defuse import ReachingDefs
+    from sa.specialise import NOT_NONE, specialise
+    from rules.boundary import _is_time_extent_def
+    col = ctx.col
+    rel = sl.module.relname
+    inp = sl.params[0].name
+    nterms = 0
+    for w in ("symmetric", "causal", "future"):
+        for valid in (True, False):
+            for given in (True, False):
+                known = {"policy": "ref", "window_type": w, "valid_only": valid,
+                         "other_lens": NOT_NONE if given else None, "in_lens": NOT_NONE}
+                node, folded = specialise(sl.node, known, allow_reassigned=("other_lens", "in_lens"))
+                if folded < 5:
+                    raise AnalysisError(f"C10: only {folded} option tests of slice_spect_data could be folded")
+                rd = ReachingDefs(node)
+
+                def col_of(v):
+                    if isinstance(v, ast.Subscript) and isinstance(v.value, ast.Name) and v.value.id == inp:
+                        sl_ = v.slice
+                        if isinstance(sl_, ast.Tuple) and len(sl_.elts) == 2 and isinstance(sl_.elts[0], ast.Constant) \
+                                and sl_.elts[0].value is Ellipsis and isinstance(sl_.elts[1], ast.Constant):
+                            return {1: "S", 2: "E"}.get(sl_.elts[1].value)
+                    return None
+
+                def leaf_of_def(d):
+                    if d.kind == "param":
+                        return {"lobe_size": "B", "in_lens": "L", "other_lens": "OL"}.get(d.name)
+                    return None
+
+                def leaf_of_expr(e):
+                    c = col_of(e)
+                    if c:
+                        return c
+                    if isinstance(e, ast.Call) and call_name(e) == "torch.arange" and e.args and isinstance(e.args[0], ast.Name) \
+                            and any(_is_time_extent_def(d, inp) for d in rd.defs_of(e.args[0])):
+                        return "t"
+                    return None
+
+                def term_hook(e, ex, depth):
+                    # X.gather(1, (in_lens - 1)...) : X at the last listed segment
+                    if isinstance(e, ast.Call) and isinstance(e.func, ast.Attribute) and e.func.attr == "gather" and len(e.args) == 2:
+                        idx = ex.term(e.args[1], depth + 1)
+                        if MM.show(idx) not in ("max((L - 1), 0)",):
+                            raise MM.Unknown(f"gather index {MM.show(idx)}")
+                        return MM.rename_leaves(ex.term(e.func.value, depth + 1), {"S": "Slast", "E": "Elast"})
+                    return None
+
+                def cond_hook(e, ex, depth):
+                    # (input[..., 1:] >= 0).all(2): both boundary columns present
+                    if isinstance(e, ast.Call) and isinstance(e.func, ast.Attribute) and e.func.attr in ("all", "any") and \
+                            isinstance(e.func.value, ast.Compare):
+                        cmp_ = e.func.value
+                        l = cmp_.left
+                        if isinstance(l, ast.Subscript) and u(l.value) == inp and u(l.slice) == "(..., slice(1, None, None))" or \
+                                (isinstance(l, ast.Subscript) and u(l) == f"{inp}[..., 1:]"):
+                            op = {ast.GtE: ">=", ast.Gt: ">", ast.Lt: "<", ast.LtE: "<="}.get(type(cmp_.ops[0]))
+                            r = ex.term(cmp_.comparators[0], depth + 1)
+                            if op:
+                                return ("and" if e.func.attr == "all" else "or", ("cmp", op, ("leaf", "S"), r),
+                                        ("cmp", op, ("leaf", "E"), r))
+                    return None
+
+                ex = MM.Extractor(rd, leaf_of_def, leaf_of_expr, term_hook=term_hook, cond_hook=cond_hook)
+                rets = [n for n in ast.walk(node) if isinstance(n, ast.Return) and isinstance(n.value, ast.Tuple)
+                        and len(n.value.elts) == 2 and all(isinstance(x, ast.Name) for x in n.value.elts)]
+                if len(rets) != 1:
+                    raise AnalysisError(f"C10: specialised slice_spect_data has {len(rets)} (slices, sources) returns")
+                sdefs = list(rd.defs_of(rets[0].value.elts[0]))
+                if len(sdefs) != 1 or not (isinstance(sdefs[0].value, ast.Call) and call_name(sdefs[0].value) == "torch.stack"):
+                    raise AnalysisError("C10: the 'ref' policy does not stack (starts, ends)")
+                pair = sdefs[0].value.args[0]
+                if not (isinstance(pair, (ast.List, ast.Tuple)) and len(pair.elts) == 2):
+                    raise AnalysisError("C10: torch.stack is not given the two bound vectors")
+
+                def sel(e):
+                    ds = list(rd.defs_of(e)) if isinstance(e, ast.Name) else []
+                    if len(ds) == 1 and ds[0].kind == "assign" and isinstance(ds[0].value, ast.Subscript):
+                        return ds[0].value.value, ds[0].value.slice
+                    raise AnalysisError(f"C10: `{u(e)}` is not a masked selection")
+                Wl = w in ("symmetric", "causal")
+                Wr = w in ("symmetric", "future")
+
+                def OLv(v):
+                    return v["OL"] if given else (0 if v["L"] == 0 else v["Elast"])
+
+                def Sp(v): return v["S"] - (v["B"] if Wl else 0)
+                def Ep(v): return v["E"] + (v["B"] if Wr else 0)
+
+                def keep(v):
+                    base = v["t"] < v["L"] and v["S"] >= 0 and v["E"] >= 0 and Sp(v) < Ep(v)
+                    if valid:
+                        return base and Sp(v) >= 0 and Ep(v) <= OLv(v)
+                    if Sp(v) == OLv(v) and base and Ep(v) > 0:
+                        return None  # 'begins after other_lens': the boundary case is not pinned down by the text
+                    return base and Ep(v) > 0 and Sp(v) < OLv(v)
+
+                def grid():
+                    for S in range(-1, 6):
+                        for E in range(-1, 6):
+                            for B in (0, 1, 2):
+                                for L in (0, 1, 2):
+                                    for t in (0, 1):
+                                        for O in range(0, 7):
+                                            yield dict(S=S, E=E, B=B, L=L, t=t, OL=O, Elast=O, Slast=O)
+                tag = f"{w},{'valid' if valid else 'any'},{'other_lens' if given else 'inferred'}"
+                for which, (elt, want, text) in enumerate((
+                        (pair.elts[0], Sp, "start - lobe (symmetric, causal) else start"),
+                        (pair.elts[1], Ep, "end + lobe (symmetric, future) else end"))):
+                    val, mask = sel(elt)
+                    try:
+                        tv, tm = ex.term(val), ex.cond(mask)
+                    except MM.Unknown as e:
+                        nterms += 2
+                        col.undecided(f"C10: 'ref' policy [{tag}] is outside the min/max-linear fragment: {e}")
+                        continue
+                    for key, term, spec, txt in ((("start", "end")[which] + "-bound", tv, want, text),
+                                                 (("start", "end")[which] + "-kept", tm, keep, "the documented discard rules")):
+                        env, g, w_, n = MM.counterexample(term, spec, grid())
+                        shown = MM.showc(term) if MM.is_cond(term) else MM.show(term)
+                        nterms += 1
+                        col.ob("G12", "S8", f"{rel}::slice_spect_data::ref-policy[{tag}]::{key}", env is None,
+                               f"under policy='ref' [{tag}] the {key} is `{shown[:300]}`; the documentation requires {txt}; "
+                               f"they differ e.g. at {env}: {g} vs {w_}", rel, getattr(elt, "lineno", sl.line),
+                               sample=dict(term=shown[:200], grid_points=n))
+    col.count("ref_policy_terms", nterms)
+    col.floor("ref_policy_terms", nterms, 48)
 
 
 def pm_of(f):
@@ -336,12 +484,20 @@ def _mutants():
         M("out-basename-no-prefix", C, "out_basename = file_prefix + new_utt_id + file_suffix", "out_basename = new_utt_id + file_suffix", "out_basename=prefix+id+suffix"),
         M("dispatch-args-swapped", C, "options.partial_tokens, options.retain_token_boundaries, options.quiet", "options.retain_token_boundaries, options.partial_tokens, options.quiet", "G1"),
         M("twin:rename-mask", F, "chunked_lens", "kept", "", -1, twin=True),
+        M("valid-end-strict", F, "mask = mask & (starts >= 0) & (ends <= other_lens.view(N, 1))", "mask = mask & (starts >= 0) & (ends < other_lens.view(N, 1))", "ref-policy"),
+        M("causal-pads-right", F, "if window_type in ('symmetric', 'future'):\n            ends = ends + lobe_size", "if window_type in ('symmetric', 'causal'):\n            ends = ends + lobe_size", "ref-policy"),
+        M("missing-boundary-kept", F, "mask = mask & (input[..., 1:] >= 0).all(2)", "mask = mask & (input[..., 1:] >= 0).any(2)", "ref-policy"),
+        M("length-inferred-from-padded-end", F, "other_lens = ends.gather(1,", "other_lens = (ends + lobe_size).gather(1,", "ref-policy"),
+        M("empty-slices-kept", F, "mask = mask & (starts < ends)", "mask = mask & (starts <= ends)", "ref-policy"),
+        M("ali-boundary-in-position-space", F, "arange = torch.arange(T + 1, device=device)", "arange = torch.arange(T, device=device)", "length-marked-in-boundary-space"),
+        M("twin:commuted-conjunction", F, "mask = mask & (starts < ends)", "mask = (starts < ends) & mask", "", twin=True),
+        M("twin:lobe-subtracted-by-negation", F, "starts = starts - lobe_size", "starts = starts + -lobe_size", "", twin=True),
     ]
 
 
 def selftest(ctx: Ctx):
     from selftest.mutate import run_selftest
-    return run_selftest("C10", ctx.pkg.repo, _mutants(), floor=14)
+    return run_selftest("C10", ctx.pkg.repo, _mutants(), floor=20)
 
 
 MANIFEST = dict(
